@@ -60,6 +60,7 @@ fn check(c: &Case) -> CaseResult {
     let allowed = merge(vec![(0, 127), (h.meta_off, h.meta_off + h.meta_len), (h.root_off, h.root_off + h.root_len), (h.leaf_off, h.leaf_off + h.leaf_len)]);
     let data = (h.data_off, h.data_off + h.data_len);
     let mut retried = false;
+    let mut swept = false;
     macro_rules! body {
         ($pm:expr, $get:expr) => {{
             let mut pm = $pm.map_err(|e| Fail::new(format!("C20/open-err/{kind}"), format!("a spec-valid archive is rejected: {e}")))?;
@@ -77,6 +78,7 @@ fn check(c: &Case) -> CaseResult {
             let mut ids = ids;
             ids.sort_unstable();
             let mut looked = 0;
+            let mut after_sweep: Option<usize> = None;
             for sel in &c.lookups {
                 if ids.is_empty() {
                     break;
@@ -93,11 +95,36 @@ fn check(c: &Case) -> CaseResult {
                 }
                 looked += 1;
             }
+            // an ascending sweep over consecutive ids, the way a tile server copies a region: each lookup still reads
+            // its own range and nothing of its neighbours
+            if c.lookups.len() % 2 == 0 {
+                let from = c.lookups.first().map_or(0, |s| crate::model::pick(*s, ids.len().max(1)));
+                after_sweep = Some((from + 10).min(ids.len()));
+                for id in ids.iter().skip(from).take(10) {
+                    let (off, len) = b.expected[id];
+                    s.clear_delivered();
+                    let t: std::io::Result<Option<Vec<u8>>> = $get(&mut pm, *id);
+                    let t = t.map_err(|e| Fail::new(format!("C20/get-err/{kind}"), format!("{e}")))?;
+                    ensure!(t.as_deref() == Some(&b.bytes[off as usize..(off + u64::from(len)) as usize]), format!("C20/tile-bytes-differ/{kind}"), "tile {id} bytes differ (ascending sweep)");
+                    let got = s.delivered();
+                    if got != vec![(off, off + u64::from(len))] {
+                        fail!(format!("C20/lookup-reads-other-bytes/{kind}"), "ascending sweep: lookup of tile {id} ([{off},{})) read {:?}", off + u64::from(len), got);
+                    }
+                    looked += 1;
+                    swept = true;
+                }
+            }
             // a lookup that is interrupted by a transient fault part-way and then retried must still read exactly
             // its own range (nothing may be remembered from the aborted attempt)
             if let Some(sel) = c.lookups.first() {
                 if !ids.is_empty() {
-                    let id = ids[crate::model::pick(sel.wrapping_mul(31), ids.len())];
+                    // the victim: the id right behind the last one of the sweep (a reader that remembers where the
+                    // previous lookup ended is then positioned exactly on it), otherwise any id
+                    let vi = match after_sweep {
+                        Some(i) if i < ids.len() => i,
+                        _ => crate::model::pick(sel.wrapping_mul(31), ids.len()),
+                    };
+                    let id = ids[vi];
                     let (off, len) = b.expected[&id];
                     let saved = s.with(|k| {
                         let old = k.sched.clone();
@@ -109,6 +136,19 @@ fn check(c: &Case) -> CaseResult {
                     let first: std::io::Result<Option<Vec<u8>>> = $get(&mut pm, id);
                     s.with(|k| k.sched = saved);
                     if first.is_err() {
+                        // first the tile behind the victim (it starts where the aborted read would have ended) ...
+                        if let Some(nid) = ids.get(vi + 1) {
+                            let (noff, nlen) = b.expected[nid];
+                            s.clear_delivered();
+                            let t: std::io::Result<Option<Vec<u8>>> = $get(&mut pm, *nid);
+                            let t = t.map_err(|e| Fail::new(format!("C20/get-err/{kind}"), format!("lookup after an aborted lookup: {e}")))?;
+                            ensure!(t.as_deref() == Some(&b.bytes[noff as usize..(noff + u64::from(nlen)) as usize]), format!("C20/lookup-after-aborted-lookup-wrong-bytes/{kind}"), "tile {nid}, looked up after the lookup of tile {id} was aborted by a transient fault, returns other bytes");
+                            let got = s.delivered();
+                            if got != vec![(noff, noff + u64::from(nlen))] {
+                                fail!(format!("C20/lookup-reads-other-bytes/{kind}"), "lookup of tile {nid} ([{noff},{})) after an aborted lookup read {:?}", noff + u64::from(nlen), got);
+                            }
+                        }
+                        // ... then the victim again
                         s.clear_delivered();
                         let t: std::io::Result<Option<Vec<u8>>> = $get(&mut pm, id);
                         let t = t.map_err(|e| Fail::new(format!("C20/get-err/{kind}"), format!("retry after a transient fault: {e}")))?;
@@ -150,6 +190,7 @@ fn check(c: &Case) -> CaseResult {
         .label(c.range.is_some(), "partial-open")
         .label(looked > 0, "lookups")
         .label(retried, "retry-after-transient-fault")
+        .label(swept, "ascending-sweep-of-consecutive-ids")
         .label(c.cap > 0, "short-reads")
         .label(true, super::c01::codec_label(c.l.internal)))
 }
@@ -164,11 +205,11 @@ pub fn run(ctx: &Ctx) {
         "foreign layouts (24 section orders incl. tile data before / between the directory sections, gaps after every section, depth 1-3 with padded and shuffled leaves, 4 \
          internal compressions) opened through from_reader / from_reader_partially / from_async_reader / from_async_reader_partially on a recording stream (optionally with short \
          reads): every byte range delivered during opening must lie inside header ∪ metadata ∪ root ∪ leaf sections and must not touch the tile-data section, the header bytes \
-         must be read; every get_tile_by_id(_async) must read exactly [offset, offset+length) of that tile. Non-trivial: tile data is not the last section, or a gap follows a \
+         must be read; every get_tile_by_id(_async) - random ids, an ascending sweep over consecutive ids, a retry after a transient fault - must read exactly [offset, offset+length) of that tile. Non-trivial: tile data is not the last section, or a gap follows a \
          directory section; distinct by digest.",
     );
     run_proptest(ctx, "recorded-reads", PtCfg::new(ctx.lanes, ctx.tier.pick(600, 30_000)), || strategy(ctx.tier.pick(200, 1500)), check);
-    for c in ["tile-data-not-last", "gap-after-directory-section", "with-leaves", "async", "sync", "partial-open", "lookups", "short-reads", "retry-after-transient-fault", "internal-brotli", "internal-zstd", "internal-gzip", "internal-none"] {
+    for c in ["tile-data-not-last", "gap-after-directory-section", "with-leaves", "async", "sync", "partial-open", "lookups", "short-reads", "retry-after-transient-fault", "ascending-sweep-of-consecutive-ids", "internal-brotli", "internal-zstd", "internal-gzip", "internal-none"] {
         ctx.rec.floor(c, 20);
     }
 }
